@@ -1072,15 +1072,22 @@ func (l *Ledger) GetBaseDB() kvdb.Database {
 }
 
 func (l *Ledger) removeBlocks(fromBlockid []byte, toBlockid []byte, batch kvdb.Batch) error {
+	_, err := l.removeBlocksOfBranch(fromBlockid, toBlockid, batch)
+	return err
+}
+
+// removeBlocksOfBranch removes the blocks of the branch ending at fromBlockid that are higher than
+// toBlockid and returns the id of the block the branch now ends with
+func (l *Ledger) removeBlocksOfBranch(fromBlockid []byte, toBlockid []byte, batch kvdb.Batch) ([]byte, error) {
 	fromBlock, findErr := l.fetchBlock(fromBlockid)
 	if findErr != nil {
 		l.xlog.Warn("failed to find block", "findErr", findErr)
-		return findErr
+		return nil, findErr
 	}
 	toBlock, findErr := l.fetchBlock(toBlockid)
 	if findErr != nil {
 		l.xlog.Warn("failed to find block", "findErr", findErr)
-		return findErr
+		return nil, findErr
 	}
 	for fromBlock.Height > toBlock.Height {
 		l.xlog.Info("remove block", "blockid", utils.F(fromBlock.Blockid), "height", fromBlock.Height)
@@ -1092,13 +1099,14 @@ func (l *Ledger) removeBlocks(fromBlockid []byte, toBlockid []byte, batch kvdb.B
 			batch.Delete(append([]byte(pb.BlockHeightPrefix), sHeight...))
 		}
 		//iter to prev block
-		fromBlock, findErr = l.fetchBlock(fromBlock.PreHash)
+		prevBlockid := fromBlock.PreHash
+		fromBlock, findErr = l.fetchBlock(prevBlockid)
 		if findErr != nil {
 			l.xlog.Warn("failed to find prev block", "findErr", findErr)
-			return nil //ignore orphan block
+			return prevBlockid, nil //ignore orphan block
 		}
 	}
-	return nil
+	return fromBlock.Blockid, nil
 }
 
 // Truncate truncate ledger and set tipblock to utxovmLastID
@@ -1130,14 +1138,14 @@ func (l *Ledger) Truncate(utxovmLastID []byte) error {
 	for _, branchTip := range branchTips {
 		deletedBlockid := []byte(branchTip)
 		// 裁剪到目标高度
-		err = l.removeBlocks(deletedBlockid, block.Blockid, batchWrite)
+		branchNewTip, err := l.removeBlocksOfBranch(deletedBlockid, block.Blockid, batchWrite)
 		if err != nil {
 			l.xlog.Warn("failed to remove garbage blocks", "from", utils.F(l.meta.TipBlockid),
 				"to", utils.F(block.Blockid))
 			return err
 		}
-		// 更新分支高度信息
-		err = l.updateBranchInfo(block.Blockid, deletedBlockid, block.Height, batchWrite)
+		// 更新分支高度信息: 裁剪后这个分支的末端是它自己在目标高度上的区块, 不一定是裁剪目标区块
+		err = l.updateBranchInfo(branchNewTip, deletedBlockid, block.Height, batchWrite)
 		if err != nil {
 			l.xlog.Warn("truncate failed when calling updateBranchInfo", "err", err)
 			return err
